@@ -108,7 +108,13 @@ class USBIsochronousStreamOutEndpoint(Elaboratable):
 
         sufficient_space         = (fifo.space_available >= self._max_packet_size)
 
-        okay_to_receive          = targeting_endpoint & sufficient_space
+        # Decide whether there's room for a whole packet once, on its first byte, and stick to that
+        # decision for the rest of the packet; so a packet is either stored completely or not at all.
+        accepting_packet         = Signal()
+        with m.If(rx.next & rx.valid & rx_first):
+            m.d.usb += accepting_packet.eq(sufficient_space)
+
+        okay_to_receive          = targeting_endpoint & Mux(rx_first, sufficient_space, accepting_packet)
         data_is_lost             = okay_to_receive & rx.next & rx.valid & fifo.full
 
         full_packet              = rx_cnt == self._max_packet_size - 1
